@@ -135,16 +135,17 @@ def gen_trees(ctx, n_trees, present):
         cplx = r.random() < 0.4
         n = r.choice([1, 2, 2, 3, 3, 4, 4, 5, 6])
         fam = r.choice(["inv", "inv", "inv", "psd", "psd", "psd_undecl", "uni"])
+        dep = r.randint(1, dmax) if r.random() < 0.8 else 0
         if fam == "inv":
-            t = g.tree(n, r.randint(0, dmax), cplx)
+            t = g.tree(n, dep, cplx)
         elif fam == "psd":
-            t = g.psd_tree(n, r.randint(0, dmax - 1), cplx, decl=True)
+            t = g.psd_tree(n, max(dep - 1, 0), cplx, decl=True)
             if r.random() < 0.4 and t["k"] not in ("Ident",):
                 t["decl"] = "PSD"
         elif fam == "psd_undecl":
-            t = g.psd_tree(n, r.randint(0, dmax - 1), cplx, decl=False)
+            t = g.psd_tree(n, max(dep - 1, 0), cplx, decl=False)
         else:
-            t = g.uni_tree(n, r.randint(0, 2), cplx)
+            t = g.uni_tree(n, min(dep, 2), cplx)
         if "scalarmul_device_cpu" in present and L.has_scal_below_prod(t):
             continue
         D = T.dense(t)
@@ -345,7 +346,7 @@ def run(ctx):
     fnd = findings()
     present = {f["flag"] for f in fnd if f["present"]} | c01_present()
     flag_amb = "inv_gmres_ambiguous" in present
-    ntrees = ctx.budget(110, 900)
+    ntrees = ctx.budget(170, 1200)
     cases = gen_trees(ctx, ntrees, present)
     terms, meta, mism = [], [], []
     err_hist, type_hist, alg_hist = {}, {}, {}
